@@ -24,7 +24,7 @@ SIZES = [0, 1, 15, 16, 17, 65535, 65536, 65537]
 ADDRS = [0, 0x10, 0xFFF0, 0xFFFC, 0x10000, 0x00FFFFF0, 0x01000000, 0x0E100000, 0x0E1EF340, 0x0FFFFFFC, 0x7FFFFFF0, 0xF0000000]
 
 
-FILLS = ["rand", "ff", "zero", "ff-runs", "ff-tail", "ascii-hex"]
+FILLS = ["rand", "ff", "zero", "ff-runs", "ff-tail", "ascii-hex", "envelope+trailer", "envelope+trailer", "two-envelopes"]
 
 
 def shaped(size, salt, fill):
@@ -47,6 +47,20 @@ def shaped(size, salt, fill):
     elif fill == "ff-tail":
         keep = size // 3
         data[keep:] = b"\xff" * (size - keep)
+    elif fill in ("envelope+trailer", "two-envelopes") and size >= 24:
+        # a complete, well-formed tag-107 item followed by more bytes (padding to a flash page, a second envelope): the FILE is what is
+        # described and copied, whatever it contains
+        def env(n, salt2):
+            body = pbytes(max(n - 10, 0), salt2)
+            return b"\xd8\x6b\xa2\x02\x41\x00\x03\x5a" + len(body).to_bytes(4, "big") + body
+
+        first = env(12 + (size - 24) * 2 // 3 if fill == "envelope+trailer" else size // 2, salt)
+        rest = size - len(first)
+        if fill == "two-envelopes" and rest >= 12:
+            data = bytearray(first + env(rest, salt + 1))
+        else:
+            data = bytearray(first + (b"\xff" * rest if salt % 2 else pbytes(rest, salt + 2)))
+        data = data[:size].ljust(size, b"\x00")
     elif fill == "ascii-hex":
         data = bytearray((b":10000000" + bytes(data).hex().upper().encode() + b"\r\n")[:size].ljust(size, b"F"))
     return bytes(data)
@@ -62,8 +76,28 @@ def judge(case, acc, ctx):
             ia = min(ia, 2**32 - reclen)
             data = shaped(size, st["salt"], st.get("fill", "rand"))
             inp = os.path.join(d, f"env{i}.suit")
-            with open(inp, "wb") as fh:
-                fh.write(data)
+            if st.get("path") == "dotdot-after-symlink":
+                # build/DFU -> ../store/v2/DFU ; the input is named build/DFU/../env.suit, which the operating system resolves to store/v2/env.suit -
+                # NOT to build/env.suit, where a different (decoy) file lies
+                os.makedirs(os.path.join(d, "store", "v2", "DFU"), exist_ok=True)
+                os.makedirs(os.path.join(d, "build"), exist_ok=True)
+                link = os.path.join(d, "build", "DFU")
+                if not os.path.islink(link):
+                    os.symlink(os.path.join("..", "store", "v2", "DFU"), link)
+                with open(os.path.join(d, "build", f"env{i}.suit"), "wb") as fh:
+                    fh.write(b"decoy file at the lexically collapsed location " * 3)
+                with open(os.path.join(d, "store", "v2", f"env{i}.suit"), "wb") as fh:
+                    fh.write(data)
+                inp = os.path.join(d, "build", "DFU", "..", f"env{i}.suit")
+            elif st.get("path") == "symlink-to-file":
+                with open(os.path.join(d, f"real{i}.bin"), "wb") as fh:
+                    fh.write(data)
+                if os.path.lexists(inp):
+                    os.unlink(inp)
+                os.symlink(f"real{i}.bin", inp)
+            if st.get("path") not in ("dotdot-after-symlink", "symlink-to-file"):
+                with open(inp, "wb") as fh:
+                    fh.write(data)
             # the steps of a sequence write to the SAME two output paths (a build directory is reused), or to fresh ones
             tag = "" if case.get("reuse_outputs", True) else str(i)
             sf, pf = os.path.join(d, f"storage{tag}.hex"), os.path.join(d, f"dfu{tag}.hex")
@@ -91,7 +125,7 @@ def judge(case, acc, ctx):
             crossing = (pa >> 16) != ((pa + max(size, 1) - 1) >> 16) or (ia >> 16) != ((ia + reclen - 1) >> 16)
             nondefault = pa != 0x0E100000 or ia != 0x0E1EF340
             nt = size > 0 and (crossing or nondefault or n != 6)
-            classes = [f"route:{route}", f"size:{size if size in SIZES else 'other'}", f"caches:{n}", f"step:{i}", f"fill:{st.get('fill', 'rand')}"] + (["crossing-64k"] if crossing else []) + \
+            classes = [f"route:{route}", f"size:{size if size in SIZES else 'other'}", f"caches:{n}", f"step:{i}", f"fill:{st.get('fill', 'rand')}", f"path:{st.get('path', 'plain')}"] + (["crossing-64k"] if crossing else []) + \
                       (["addr-zero"] if pa == 0 or ia == 0 else []) + (["top-of-memory"] if pa + size == 2**32 or ia + reclen == 2**32 else [])
             acc.case(nt_key=(size if size in SIZES else size >> 12, pa >> 24, pa & 0xFFFF, ia >> 24, n, i) if nt else None, classes=classes, sample=case, sample_key=f"{route}/{i}/{n % 3}")
             if raised is not None:
@@ -120,6 +154,7 @@ def step_s():
         "size": st.one_of(st.sampled_from(SIZES), st.integers(0, 300), st.integers(0, 300 * 1024)),
         "salt": st.integers(0, 10**6),
         "fill": st.sampled_from(FILLS + ["rand", "rand"]),
+        "path": st.sampled_from(["plain", "plain", "plain", "dotdot-after-symlink", "symlink-to-file"]),
         "paddr": addr, "iaddr": addr,
         "caches": st.one_of(st.integers(0, 16), st.sampled_from([0, 6, 16])),
     })
@@ -153,6 +188,6 @@ def replay(ctx, check, case):
 
 def finalize(ctx, m, ev):
     c = m["counters"]
-    for n in ["size:0", "size:65536", "size:65537", "caches:0", "caches:16", "crossing-64k", "addr-zero", "top-of-memory", "route:cli", "route:api", "step:2", "fill:ff", "fill:ff-runs", "fill:ff-tail", "fill:zero"]:
+    for n in ["size:0", "size:65536", "size:65537", "caches:0", "caches:16", "crossing-64k", "addr-zero", "top-of-memory", "route:cli", "route:api", "step:2", "fill:ff", "fill:ff-runs", "fill:ff-tail", "fill:zero", "fill:envelope+trailer", "fill:two-envelopes", "path:dotdot-after-symlink", "path:symlink-to-file"]:
         if not c.get(n):
             raise boot.HarnessError(f"interesting class {n} is empty")
